@@ -10,6 +10,9 @@ import (
 	"reflect"
 	"sort"
 	"sync"
+	"unsafe"
+
+	"github.com/Comcast/rulio/verifrt/sched"
 )
 
 // Chooser picks an iteration order for a map with n keys (n >= 2) at a site;
@@ -120,4 +123,37 @@ func KeysR(m interface{}) interface{} {
 		out = reflect.Append(out, k)
 	}
 	return out.Interface()
+}
+
+// R records a read of map m at site (level-3 instrumentation) and returns m.
+func R[M ~map[K]V, K comparable, V any](m M, site string) M {
+	if sched.Current() != nil && m != nil {
+		sched.Access(*(*uintptr)(unsafe.Pointer(&m)), mapName(site), site, false, m)
+	}
+	return m
+}
+
+// W records a write of map m at site and returns m.
+func W[M ~map[K]V, K comparable, V any](m M, site string) M {
+	if sched.Current() != nil && m != nil {
+		sched.Access(*(*uintptr)(unsafe.Pointer(&m)), mapName(site), site, true, m)
+	}
+	return m
+}
+
+// mapName: the expression part of "pkg.Type.Func:expr", receiver name dropped
+// ("s.cachedRules" -> ".cachedRules") so that both sides of a race name the map alike.
+func mapName(site string) string {
+	for i := 0; i < len(site); i++ {
+		if site[i] == ':' {
+			e := site[i+1:]
+			for j := 0; j < len(e); j++ {
+				if e[j] == '.' {
+					return e[j:]
+				}
+			}
+			return e
+		}
+	}
+	return site
 }
